@@ -7,9 +7,18 @@ import (
 )
 
 func payloadOf(v any) []byte {
-	if a, ok := v.([]any); ok && len(a) == 1 {
-		if f, ok := a[0].(float64); ok && f < 0 {
+	if a, ok := v.([]any); ok && len(a) >= 1 {
+		if f, ok := a[0].(float64); ok && f == -1 {
 			return nil // NilPayload == <<-1>>
+		}
+		if f, ok := a[0].(float64); ok && f == -2 && len(a) == 4 {
+			// size token <<-2, b2, b1, b0>>: a long payload whose bytes the specification does not need
+			n := int(a[1].(float64))<<16 | int(a[2].(float64))<<8 | int(a[3].(float64))
+			b := make([]byte, n)
+			for i := range b {
+				b[i] = byte(i*131 + i>>8)
+			}
+			return b
 		}
 	}
 	b := bytesOf(v)
